@@ -84,7 +84,7 @@ def queries():
             qs.append(Q('agree_%s_r%d' % (ft, radix), 'C12_int.c', 'numeric.cpp', config='small', defs=defs, models=M, ub=True, unwind=d + 6, heap_cap=2 * d + 8, object_bits=10,
                         tiers=('quick', 'thorough') if quick else ('thorough',), bound={'type': ft, 'radix': radix, 'values': 'all 2^%d' % bits}, timeout=900 if quick else 3000))
     # (3b) decimal cross-printer agreement (from_int == ST::format == string_stream) at 32/64 bits on the same windows
-    for ft, bits, sg, ssft in (('int', 32, 1, 'int'), ('llong', 64, 1, 'llong'), ('ullong', 64, 0, 'ullong')):
+    for ft, bits, sg, ssft in (('int', 32, 1, 'int'), ('uint', 32, 0, 'uint'), ('long', 64, 1, 'long'), ('ulong', 64, 0, 'ulong'), ('llong', 64, 1, 'llong'), ('ullong', 64, 0, 'ullong')):    # every static type string_stream has its own inserter for
         for wn, lo, hi in swin(bits, sg):
             d = dg(bits, 10)
             defs = {'OP': 3, 'FT': ft, 'SSFT': ssft, 'BITS': bits, 'SIGNED': sg, 'RADIX': 10, 'UPPER': 0, 'DIGITS': d + 1, 'FMTNAME': 0, 'WITH_SS': 1}
